@@ -1,5 +1,6 @@
 import Driver.Pure
 import Driver.Recv
+import Driver.Prog
 
 open Driver
 
@@ -20,6 +21,7 @@ def main (args : List String) : IO UInt32 := do
   match args with
   | ["values"] => loop stdin stdout ({} : ValState) valuesStep; return 0
   | ["wire"] => loop stdin stdout ({} : ValState) wireStep; return 0
+  | ["prog"] => loop stdin stdout ({} : ProgState) progStep; return 0
   | ["receiver"] => loop stdin stdout ({} : RecvState) recvStep; return 0
   | ["normalize"] => loop stdin stdout ({} : ValState) normalizeStep; return 0
   | _ => IO.eprintln "usage: driver <suite>"; return 2
